@@ -115,7 +115,7 @@ func splitIdentifierByCaseAndSeparators(s string) []string {
 		case unicode.IsUpper(r):
 			nextState = stateUpper
 
-		case unicode.IsNumber(r):
+		case unicode.IsDigit(r):
 			nextState = stateNumber
 
 		case !unicode.IsLetter(r): // Non-letter characters.
